@@ -397,7 +397,7 @@ def run(index, rep, tier):
     # ---------------- R05.9
     with rep.section("R05.9"):
         rep.rule("R05.9", "edge lengths are read off the right edges: count_splits_on_tree pairs each split with its edge through tree.bipartition_edge_map, which every re-encode must drop unconditionally (C01 R01.5)")
-        rep.floor("R05.9", "borrowed obligations", 2, borrow(index, rep, "C01", {"R01.5", "R01.1", "R01.4", "R01.8"}, "R05.9"))
+        rep.floor("R05.9", "borrowed obligations", 2, borrow(index, rep, "C01", {"R01.5", "R01.1", "R01.4", "R01.8", "R01.12"}, "R05.9"))
 
     # ---------------- R05.3
     with rep.section("R05.3"):
